@@ -1,12 +1,17 @@
+import TaskModel.Gen.Codes
 /-! Outcome classes of one run of the load / list / compile / resolve path and what C16 allows. -/
 namespace TaskModel.Decode
 
 inductive Outcome | ok | error (code : Nat) | panic | timeout
 deriving DecidableEq, Repr
 
-/-- what the property allows: success or a diagnosed error with an exit code -/
+/-- a documented exit code: a constant of errors/errors.go other than `CodeOk` -/
+def documented (c : Nat) : Bool := c != 0 && TaskModel.Gen.Codes.consts.any (fun k => k.2 == c)
+
+/-- what the property allows: success or a diagnosed error with a documented exit code -/
 def acceptable : Outcome → Bool
-  | .ok | .error _ => true
+  | .ok => true
+  | .error c => documented c
   | .panic | .timeout => false
 
 end TaskModel.Decode
